@@ -6,13 +6,16 @@ package main
 
 import (
 	"context"
+	"encoding/base64"
 	"encoding/json"
 	"fmt"
 	"io"
+	"os"
 	"reflect"
 	"sort"
 	"strings"
 	"sync"
+	"time"
 
 	"github.com/tinode/chat/pbx"
 	"github.com/tinode/chat/server/auth"
@@ -25,6 +28,8 @@ import (
 	"github.com/tinode/chat/server/zzverif/vsnow"
 	"google.golang.org/grpc/metadata"
 )
+
+func vfB64(b []byte) string { return base64.StdEncoding.EncodeToString(b) }
 
 // ---------------------------------------------------------------------------------------------
 // process-wide one-time setup
@@ -63,7 +68,11 @@ func (h *vfPushHandler) drain() (out []*push.Receipt, chn []*push.ChannelReq) {
 
 func vfProcessInit() {
 	vfOnce.Do(func() {
-		logs.Init(io.Discard, "")
+		if os.Getenv("VERIF_LOGS") != "" {
+			logs.Init(os.Stderr, "stdFlags")
+		} else {
+			logs.Init(io.Discard, "stdFlags")
+		}
 		vfDB = memdb.New()
 		store.RegisterAdapter(vfDB)
 		push.Register("verif", vfPush)
@@ -163,7 +172,7 @@ func vfBoot(o vfBootOpts) *vfWorld {
 			globals.callEstablishmentTimeout = defaultCallEstablishmentTimeout
 		}
 	}
-	globals.sessionStore = NewSessionStore(idleSessionTimeout + 15*vfSecond)
+	globals.sessionStore = NewSessionStore(idleSessionTimeout + 15*time.Second)
 	globals.hub = newHub()
 	usersInit()
 	w := &vfWorld{db: vfDB}
@@ -195,7 +204,7 @@ func (w *vfWorld) vfMakeUser(name string, level auth.Level, public any) *vfUser 
 	}
 	u := &vfUser{name: name, uid: user.Uid(), level: level}
 	tok, _, err := store.Store.GetAuthHandler("token").GenSecret(&auth.Rec{Uid: u.uid, AuthLevel: level,
-		Lifetime: auth.Duration(24 * vfHour)})
+		Lifetime: auth.Duration(24 * time.Hour)})
 	if err != nil {
 		vsched.Fail("harness", "cannot mint token: "+err.Error())
 	}
